@@ -107,6 +107,141 @@ class RoDomain(FlowDomain):
             self.bad.setdefault(key, (fr.where(bi), fr.chain_str(), site))
 
 
+def cow_only_rule(f, P, rep, rid):
+    """A guest cluster whose entry is Compressed, or Backing-provided on an image with a backing file, gets a new
+    host cluster only in the copy-on-write routine.  Every other place that installs a fresh allocation is
+    unreachable when the mapping it looked at is of such a kind (abstract interpretation of the routine with the
+    result of every get_mapping/into_mapping forced to that kind); a routine that installs for one cluster
+    without a loop may instead rely on its callers' test of the same cluster (followed up the call graph)."""
+    from ..absint import AbsInt
+    from . import rollback
+    rep.rule(rid, 'outside the copy-on-write routine no fresh cluster is installed for a guest cluster whose mapping is Compressed '
+                  'or (with a backing file) Backing: the install site is unreachable under that mapping, in the routine itself or, '
+                  'for loop-free single-cluster installs, in every caller')
+    ms = f.adts.get('meta::l2::MappingSource')
+    if ms is None:
+        raise AnalysisError('MappingSource not found')
+    vidx = {v['n']: i for i, v in enumerate(ms['variants'])}
+    for need in ('Compressed', 'Backing', 'Unallocated'):
+        if need not in vidx:
+            raise AnalysisError('MappingSource::%s not found' % need)
+    fl = [x['n'] for x in f.adts['meta::l2::Mapping']['variants'][0]['fields']]
+    if fl[0] != 'source':
+        raise AnalysisError('Mapping layout changed: %s' % fl)
+    inst = rollback.install_fns(f, P)
+    cow = {r['fn'] for r in rollback.analyse(f, P)}
+    memo = {}
+
+    def reach(path, V, back):
+        """install-relevant call sites evaluated in the body under the partition -> set of (block, callee)"""
+        k = (path, V, back)
+        if k in memo:
+            return memo[k]
+        ai = AbsInt(f)
+        hit = set()
+        cnt = [0]
+
+        def mk(ai_, st, frame, b, bi, t, args):
+            cnt[0] += 1
+            src = ('agg', 'meta::l2::MappingSource', vidx[V], ())
+            rest = tuple(('u', ('forced', cnt[0], n), 'bool' if n == 'copied' else None) for n in fl[1:])
+            return ('agg', 'meta::l2::Mapping', 0, (src,) + rest)
+        ai.hooks['L2Table::get_mapping'] = mk
+        ai.hooks['L2Entry::into_mapping'] = mk
+        ai.hooks['Qcow2Info::has_back_file'] = lambda *a: ('c', 1 if back else 0)
+
+        def seen(ai_, st, frame, b, bi, t, args):
+            if frame[0] is None:
+                hit.add((bi, t.get('fn')))
+            return None
+        ai.hooks['L2Table::map_cluster'] = seen
+        for x in all_fns:
+            ai.hooks[x] = seen
+        ai.analyze(path)
+        memo[k] = hit
+        return hit
+    PARTS = (('Compressed', 0), ('Compressed', 1), ('Backing', 1))
+    # routines on the way from the API to an install
+    all_fns = set(inst)
+    grew = True
+    callers = {}
+    while grew:
+        grew = False
+        for b in f.body_list:
+            if '::tests::' in b.path or not b.is_coroutine:
+                continue
+            me = b.path.rsplit('::{closure', 1)[0]
+            for bi, t in b.calls():
+                if t.get('fn') in all_fns:
+                    callers.setdefault(t['fn'], set()).add((b.path, bi))
+                    if me not in all_fns and short(b.path) not in cow and len(all_fns) < 40:
+                        all_fns.add(me)
+                        grew = True
+    n = 0
+
+    def loop_site(b, bi):
+        succ = b.succ()
+        seen_, st = set(), list(succ[bi])
+        while st:
+            x = st.pop()
+            if x == bi:
+                return True
+            if x not in seen_:
+                seen_.add(x)
+                st.extend(succ[x])
+        return False
+
+    def decide(bpath, bi, fn, depth, trail):
+        """-> None if fine, else the trail (list of where strings) up to an unguarded site"""
+        b = f.body(bpath)
+        bad = [(V, back) for V, back in PARTS if (bi, fn) in reach(bpath, V, back)]
+        if not bad:
+            return None
+        here = '%s at %s (reachable with a %s mapping)' % (short(bpath), b.where(bi), '/'.join(sorted({v for v, _ in bad})))
+        if loop_site(b, bi) or depth >= 4:
+            return trail + [here + ' inside a loop over clusters the caller has not examined' if depth < 4 else here]
+        me = bpath.rsplit('::{closure', 1)[0]
+        cs = callers.get(me, set())
+        if not cs:
+            return trail + [here + '; no caller tests the mapping']
+        for (cp, cbi) in sorted(cs):
+            if short(cp) in cow:
+                continue
+            r = decide(cp, cbi, me, depth + 1, trail + [here])
+            if r is not None:
+                return r
+        return None
+    for b in f.body_list:
+        if '::tests::' in b.path or not b.is_coroutine or short(b.path) in cow:
+            continue
+        dp = None
+        for bi, t in b.calls():
+            fn = t.get('fn') or ''
+            direct = False
+            if fn.endswith('L2Table::map_cluster') and len(t['args']) >= 3:
+                dp = dp or Deps(P, b)
+                d = dp.of_operand(t['args'][2], (bi, 10 ** 6))
+                direct = any(x[0] == 'fn' and x[1].endswith(rollback.ALLOCATORS) for x in d)
+            if not direct and fn not in inst:
+                continue
+            if b.path.rsplit('::{closure', 1)[0] in inst and not direct:
+                continue
+            n += 1
+            # the analysis must be able to reach the site at all (positive control)
+            if (bi, fn) not in reach(b.path, 'Unallocated', 0):
+                raise AnalysisError('C10.8: install site %s at %s is not reached even with an unallocated mapping' % (short(b.path), b.where(bi)))
+            trail = decide(b.path, bi, fn, 0, [])
+            site = '%s: fresh cluster installed at %s' % (short(b.path), b.where(bi))
+            rep.ob(rid, site, trail is None, 'unreachable for Compressed / Backing mappings (here or in every caller)' if trail is None else ' <- '.join(trail))
+            if trail is not None:
+                rep.violation(rid, '%s:%s' % (rid, short(b.path)), b.where(bi),
+                              '%s can install a freshly allocated, empty host cluster for a guest cluster whose mapping is Compressed '
+                              'or provided by the backing file, outside the copy-on-write routine: the bytes of that cluster which the '
+                              'write does not cover turn into zeros (and a compressed cluster is never released); %s' % (
+                                  short(b.path), ' <- '.join(trail)))
+    rep.floor('install sites outside the copy-on-write routine', n, 2)
+
+
 def run(ctx, rep):
     f = ctx.lib
     from . import span
@@ -246,6 +381,7 @@ def run(ctx, rep):
     rep.floor('guarded mutations in copy-on-write routines', ncta, 2)
     from . import rollback
     rollback.report(f, P, rep, 'C10.7', ('restore',))
+    cow_only_rule(f, P, rep, 'C10.8')
     ncow = 0
     from .c06 import cow_merge_fns
     merges = set(cow_merge_fns(f))
